@@ -66,6 +66,44 @@ func main() {
 		}
 		wg.Wait()
 		r.Count("distinct certified public keys", len(seenKeys))
+		// a validity that is not a non-negative number is not a validity: the handler is not built from such a
+		// configuration (and certainly no request asking for some reinterpretation of it reaches the CA)
+		for bi, bad := range []any{-1, -60.0, "0100", "60", "3600s", true, []any{60}, map[string]any{"sec": 60}} {
+			c := r.Case("bad-validity", bi)
+			if c == nil {
+				continue
+			}
+			rec := map[string]any{"cert_validity_sec": bad}
+			r.Eval(1)
+			r.Guard(c, "invalid validity in the configuration", rec, func() {
+				kd, _ := gsrig.NewKeyDir()
+				defer kd.Remove()
+				user := gen.Pool()[0]
+				kd.Write("alice.pub", gsrig.AuthorizedLine(user.Pub, ""))
+				gc, _, err := gsrig.GensignConfig(gsrig.Conf{PubKeyDir: kd.Path, Identifiers: map[string]string{"default": "d"}, RawValidity: bad})
+				if err != nil {
+					r.Count("invalid validity refused when the configuration is loaded", 1)
+					r.Nontrivial(fmt.Sprintf("bad-validity:%v", bad))
+					return
+				}
+				ag := wire.New()
+				defer ag.Close()
+				ag.Keyring.Add(agent.AddedKey{PrivateKey: user.Priv})
+				rig, err := gsrig.NewRig(ag, gc)
+				if err != nil {
+					r.Count("invalid validity refused when the handler is built", 1)
+					r.Nontrivial(fmt.Sprintf("bad-validity:%v", bad))
+					return
+				}
+				defer rig.Close()
+				gsrig.Run(gsrig.Param(gsrig.ParamSpec{LogName: "alice", ReqUser: "u", ReqHost: "h", ClientIP: "1.2.3.4", TransID: "0123456789", Policy: "NONS"}), []gensign.Handler{rig.Handler}, rig.Signer)
+				if len(rig.Signer.Calls) > 0 {
+					r.Violation(c, "csr-field:validity:from-invalid-configuration", fmt.Sprintf("cert_validity_sec=%#v was accepted and a request asking for %d seconds reached the CA", bad, rig.Signer.Calls[0].Req.Validity), rec)
+					return
+				}
+				r.Count("invalid validity: no request reached the CA", 1)
+			})
+		}
 		r.Floor(int64(r.Pick(600, 20000)), int64(r.Pick(200, 5000)))
 	})
 }
